@@ -99,7 +99,7 @@ TYPES = {
         'axis': A('AXIS', 'ref', multi=True, targets=['axis']),
         'zones': A('ZONES', 'ref', multi=True, targets=['zone']),
         'values': A('VALUES', 'num', multi=True, nested=True),
-        'source': A('SOURCE', 'ref', targets=ANY),
+        'source': A('SOURCE', 'ref', targets=ANY, code='OBJREF'),
     }),
     'equipment': dict(method='add_equipment', set_type='EQUIPMENT', lr_type=5, attrs={
         'trademark_name': A('TRADEMARK-NAME', 'text'),
